@@ -245,8 +245,15 @@ func runC19(t *Trace, r *Rng, tier string, _ []string) {
 					if rn >= 0xd800 && rn < 0xe000 {
 						continue
 					}
-					for _, rep := range []int{1, 3} {
-						in := []byte(strings.Repeat(string(rn), rep))
+					// alone, three times in a row, and followed by a combining or half-width sound mark (filters that fold
+					// a mark into the preceding rune index tables by that rune)
+					for _, rep := range []int{1, 3, -0xff9e, -0xff9f, -0x3099, -0x309a, -0x0301} {
+						var in []byte
+						if rep < 0 {
+							in = []byte(string(rn) + string(rune(-rep)))
+						} else {
+							in = []byte(strings.Repeat(string(rn), rep))
+						}
 						res := runGuarded(limit, func() string {
 							f(in)
 							return "ok"
